@@ -335,6 +335,36 @@ where
             |(mut props, mut merge_args), jsx_attr_or_spread| {
                 match jsx_attr_or_spread {
                     JSXAttrOrSpread::JSXAttr(jsx_attr) if is_directive(jsx_attr) => {
+                        // `v-foo=<b />`: an element written as the value is the value, the
+                        // same as `v-foo={<b />}`
+                        let lowered;
+                        let jsx_attr = match &jsx_attr.value {
+                            Some(JSXAttrValue::JSXElement(element)) => {
+                                lowered = JSXAttr {
+                                    value: Some(JSXAttrValue::JSXExprContainer(JSXExprContainer {
+                                        span: DUMMY_SP,
+                                        expr: JSXExpr::Expr(Box::new(
+                                            self.transform_jsx_element(element),
+                                        )),
+                                    })),
+                                    ..jsx_attr.clone()
+                                };
+                                &lowered
+                            }
+                            Some(JSXAttrValue::JSXFragment(fragment)) => {
+                                lowered = JSXAttr {
+                                    value: Some(JSXAttrValue::JSXExprContainer(JSXExprContainer {
+                                        span: DUMMY_SP,
+                                        expr: JSXExpr::Expr(Box::new(
+                                            self.transform_jsx_fragment(fragment),
+                                        )),
+                                    })),
+                                    ..jsx_attr.clone()
+                                };
+                                &lowered
+                            }
+                            _ => jsx_attr,
+                        };
                         match parse_directive(jsx_attr, is_component) {
                             Directive::Normal(directive) => directives.push(directive),
                             Directive::Html(expr) => {
